@@ -216,6 +216,7 @@ class Terminal(Service, discriminator="terminal"):
             command: str = request[1]["command"]
             remote_connection = self._get_connection_from_ip(ip_address=ip_address)
             if remote_connection:
+                self._last_response = None  # the answer reported must be the answer to this command, not to an earlier exchange
                 remote_connection.execute(command)
                 # no answer came back (the command or its reply was lost, or the target did not act on it): a failure
                 if self.last_response is None:
